@@ -98,7 +98,7 @@ AVOID_ALL = sorted(TRIGGERS)
 
 RSP_MUT_KINDS = ["no-status", "rsp-alone", "no-args", "wrong-verb", "unknown-verb", "prefix-verb", "empty-verb",
 	"no-nul", "nonnum-status", "huge", "negative", "overlong", "empty", "random", "non-utf8", "bitflip",
-	"truncate", "dup", "measure-short", "measure-odd", "setformat", "embedded-nul", "not-rsp", "trxd-on-ctrl"]
+	"truncate", "dup", "measure-short", "measure-odd", "setformat", "embedded-nul", "not-rsp", "trxd-on-ctrl", "blank"]
 TRXD_MUT_KINDS = ["trunc", "version", "fn-huge", "psk", "long", "random", "len-off", "bitflip", "rsp-on-data", "empty"]
 ERRNOS = [4, 9, 11, 104, 111]
 
@@ -266,6 +266,9 @@ def rsp_mut(op, head, last_answered):
 		return out + (b"\x00" if op.get("nul") else b"")
 	if kind == "empty":
 		return b""
+	if kind == "blank":
+		# nothing but terminators and white space (whatever strips trailing octets must stop at the start)
+		return [b"\x00", b"\n", b" ", b"\x00\x00\x00\x00", b"\r\n", b"\t \n\x00", b" " * 40, b"\x00" * 1023, b"\n" * 1024][op.get("v", 0) % 9]
 	if kind == "random":
 		n = op.get("n", 12)
 		x = bytes(r.randrange(256) for _ in range(n))
